@@ -8,6 +8,7 @@ import (
 
 	"github.com/PowerDNS/lightningstream/config"
 	zz "github.com/PowerDNS/lightningstream/internal/zzverif"
+	"github.com/PowerDNS/lightningstream/snapshot"
 	"github.com/PowerDNS/lmdb-go/lmdb"
 )
 
@@ -48,4 +49,32 @@ func VerifC12ReceiveOnly() {
 	zz.Assert(len(st.log) == 0, "C12/receive-only/no-list-store-delete")
 	zz.Assert(len(st.names) == 2, "C12/receive-only/bucket-untouched")
 	zz.Reach("C12/receive-only/done")
+}
+
+// VerifC15Sanitise: instance names whatsoever are reduced to the safe character set, so that
+// the built snapshot name parses back to exactly the sanitised instance. Names are 3 characters
+// over a representative alphabet (letter, capital, digit, dash, underscore, dot, space, slash);
+// the regular expression itself is evaluated by the real regexp package (not encoded).
+func VerifC15Sanitise() {
+	alphabet := []byte{'a', 'Z', '0', '-', '_', '.', ' ', '/'}
+	name := make([]byte, 3)
+	name[0] = alphabet[zz.Shard(8)]
+	name[1] = alphabet[zz.Choice("c1", 8)]
+	name[2] = alphabet[zz.Choice("c2", 8)]
+	env := zz.NewEnv()
+	s := vFullSyncer(env, &vStore{}, string(name), true, nil)
+	id := s.instanceID()
+	zz.Assert(len(id) == 3, "C15/sanitise/length-kept")
+	for i := 0; i < len(id); i++ {
+		c := id[i]
+		safe := (c >= 'a' && c <= 'z') || (c >= 'A' && c <= 'Z') || (c >= '0' && c <= '9') || c == '-'
+		zz.Assert(safe, "C15/sanitise/only-safe-characters")
+	}
+	ni := snapshot.NameInfo{Extension: snapshot.DefaultExtension, SyncerName: "db", InstanceID: id, GenerationID: "GX", Timestamp: time.Unix(0, zz.NondetI64("ts")&(1<<62-1))}
+	got, err := snapshot.ParseName(ni.BuildName())
+	zz.Assert(err == nil, "C15/sanitise/name-of-any-instance-parses")
+	if err == nil {
+		zz.Assert(got.InstanceID == id && got.SyncerName == "db" && got.GenerationID == "GX", "C15/sanitise/components-survive")
+	}
+	zz.Reach("C15/sanitise/done")
 }
